@@ -23,7 +23,7 @@ theorem set_get_self {α : Type} {l : List α} {i : Nat} {a : α} (h : i < l.len
 
 theorem set_get_ne {α : Type} {l : List α} {i j : Nat} {a : α} (h : j ≠ i) :
     (l.set i a)[j]? = l[j]? := by
-  rw [List.getElem?_set]; simp [fun e => h (Eq.symm e)]
+  rw [List.getElem?_set, if_neg (fun e => h e.symm)]
 
 theorem lt_of_get_some {α : Type} {l : List α} {i : Nat} {a : α} (h : l[i]? = some a) : i < l.length :=
   (List.getElem?_eq_some_iff.mp h).1
@@ -152,7 +152,7 @@ theorem LRU.Inv.set {l : LRU} {h h' : Nat → Nat} (hi : l.Inv h) {i : Nat} {r r
 
 theorem LRU.Eff.set {l : LRU} {i : Nat} {r r' : RC} {o' : List (Nat × Nat)}
     (hr : l.rcs[i]? = some r) (hkey : r'.key = r.key) (hval : r'.val = r.val)
-    (ha : r.alive) (hmono : r'.refs ≤ r.refs + 1) :
+    (ha : r.alive) :
     LRU.Eff l { cap := l.cap, order := o', rcs := l.rcs.set i r' } (if r'.refs ≤ 0 then some r.val else none) := by
   have hlt := lt_of_get_some hr
   refine ⟨by simp, ?_, ?_, rfl⟩
@@ -217,7 +217,7 @@ theorem LRU.get_spec {l l' : LRU} {h h' : Nat → Nat} {k i : Nat} (hi : l.Inv h
     have hr0 := hi.refs _ r hr
     simp only [LRU.inc, hr]
     have hal' : RC.alive { r with refs := r.refs + 1 } := by unfold RC.alive at *; simp; omega
-    refine ⟨?_, ?_, by simp, ⟨r, { r with refs := r.refs + 1 }, hr, set_get_self hlt, hkey, halive, hal',
+    refine ⟨?_, ?_, by simp, ⟨r, { r with refs := r.refs + 1 }, rfl, set_get_self hlt, hkey, halive, hal',
       rfl, rfl, hf, find_touch⟩⟩
     · refine hi.set hr rfl ?_ hh2 (touch_mem hm) (touch_nodup hi.nodup) ?_ ?_
       · simp only [hfin] at hr0 ⊢
@@ -225,7 +225,6 @@ theorem LRU.get_spec {l l' : LRU} {h h' : Nat → Nat} {k i : Nat} (hi : l.Inv h
       · intro hc; simp [hfin] at hc
       · intro _; exact Or.inl hfin
     · have := LRU.Eff.set (o' := touch l.order k i0) (r' := { r with refs := r.refs + 1 }) hr rfl rfl halive
-        (by simp)
       have hpos : ¬ (r.refs + 1 ≤ 0) := by unfold RC.alive at halive; omega
       simpa [hpos] using this
   · simp at hg
@@ -240,7 +239,7 @@ theorem LRU.dec_spec {l : LRU} {h h' : Nat → Nat} {i : Nat} (hi : l.Inv h)
   obtain ⟨r, hr, halive⟩ := hi.get_of_held hheld
   have hr0 := hi.refs i r hr
   simp only [LRU.dec, hr]
-  refine ⟨?_, ?_, by simp, rfl⟩
+  refine ⟨?_, ?_, by simp, by simp⟩
   · refine hi.set hr rfl ?_ hh2 (fun _ h => h) hi.nodup ?_ ?_
     · simp only; rw [hr0]
       have : (h i : Int) = h' i + 1 := by omega
@@ -250,30 +249,30 @@ theorem LRU.dec_spec {l : LRU} {h h' : Nat → Nat} {i : Nat} (hi : l.Inv h)
       rw [hei, hr] at hre; simp at hre; subst hre
       simp at hc; simp [hc] at hf1
     · intro hc; exact Or.inl hc
-  · exact LRU.Eff.set (o' := l.order) (r' := { r with refs := r.refs - 1 }) hr rfl rfl halive (by simp; omega)
+  · exact LRU.Eff.set (o' := l.order) (r' := { r with refs := r.refs - 1 }) hr rfl rfl halive
 
 /-! ### `finalize` (capacity eviction): needs the evicted counter to be out of the order already -/
 
 theorem LRU.finalize_spec {l : LRU} {h : Nat → Nat} {i : Nat} (hi : l.Inv h)
     (hout : ∀ e ∈ l.order, e.2 ≠ i) :
     (l.finalize i).1.Inv h ∧ l.Eff (l.finalize i).1 (l.finalize i).2 ∧
-      (l.finalize i).1.rcs.length = l.rcs.length ∧ (l.finalize i).1.order = l.order := by
+      (l.finalize i).1.rcs.length = l.rcs.length ∧ (l.finalize i).1.order = l.order ∧
+      (∀ j, j ≠ i → (l.finalize i).1.rcs[j]? = l.rcs[j]?) := by
   unfold LRU.finalize
   split
   · rename_i r hr
     have hr0 := hi.refs i r hr
     split
-    · exact ⟨hi, LRU.Eff.refl l, rfl, rfl⟩
+    · exact ⟨hi, LRU.Eff.refl l, rfl, rfl, fun _ _ => rfl⟩
     · rename_i hfin
       simp only [Bool.not_eq_true] at hfin
       have halive : r.alive := hi.alive_of_not_fin hr hfin
-      refine ⟨?_, ?_, by simp, rfl⟩
+      refine ⟨?_, ?_, by simp, rfl, fun j hj => set_get_ne hj⟩
       · refine hi.set hr rfl ?_ (fun _ _ => rfl) (fun _ h => h) hi.nodup (fun _ => hout) (fun hc => ?_)
         · simp only [hfin] at hr0; simp at hr0 ⊢; omega
         · simp at hc
       · exact LRU.Eff.set (o' := l.order) (r' := { r with refs := r.refs - 1, fin := true }) hr rfl rfl halive
-          (by simp; omega)
-  · exact ⟨hi, LRU.Eff.refl l, rfl, rfl⟩
+  · exact ⟨hi, LRU.Eff.refl l, rfl, rfl, fun _ _ => rfl⟩
 
 /-! ### `LRUCache.Add` -/
 
@@ -305,7 +304,9 @@ theorem LRU.Eff.push {l : LRU} {k v : Nat} {o' : List (Nat × Nat)} :
   ⟨by simp, fun _ r h => ⟨r, append_get_old h, rfl, rfl, fun x => x, fun a b => absurd a b⟩,
    fun _ h => by simp at h, rfl⟩
 
-theorem LRU.Eff.trans {l1 l2 l3 : LRU} {f : Option Nat} (h12 : LRU.Eff l1 l2 none) (h23 : LRU.Eff l2 l3 f) :
+theorem LRU.Eff.trans {l1 l2 l3 : LRU} {f : Option Nat} (h12 : LRU.Eff l1 l2 none) (h23 : LRU.Eff l2 l3 f)
+    (hnew : ∀ (j : Nat) (r2 r3 : RC), l1.rcs.length ≤ j → l2.rcs[j]? = some r2 → l3.rcs[j]? = some r3 →
+      r2.alive → r3.alive) :
     LRU.Eff l1 l3 f := by
   refine ⟨Nat.le_trans h12.len h23.len, ?_, ?_, by rw [h23.cap, h12.cap]⟩
   · intro j r hj
@@ -326,8 +327,118 @@ theorem LRU.Eff.trans {l1 l2 l3 : LRU} {f : Option Nat} (h12 : LRU.Eff l1 l2 non
     · obtain ⟨r2', h2', _, hv2, ha2, _⟩ := h12.old j l1.rcs[j] (by simp [hlt])
       rw [h2] at h2'; simp at h2'; subst h2'
       exact ⟨j, l1.rcs[j], r3, by simp [hlt], h3, by rw [← hval, hv2], ha2 ha, hn⟩
-    · -- a counter created by the first operation cannot be the one dying in the second: excluded by callers
-      exact ⟨j, r2, r3, ?_, h3, hval, ha, hn⟩
-      sorry
+    · exact absurd (hnew j r2 r3 (by omega) h2 h3 ha) hn
+
+theorem LRU.Inv.ids_lt {l : LRU} {h : Nat → Nat} (hi : l.Inv h) : ∀ e ∈ l.order, e.2 < l.rcs.length := by
+  intro e he
+  obtain ⟨r, hr, _, _⟩ := hi.ord e he
+  exact lt_of_get_some hr
+
+theorem LRU.Inv.fresh_not_mem {l : LRU} {h : Nat → Nat} (hi : l.Inv h) {o : List (Nat × Nat)}
+    (hsub : ∀ e ∈ o, e ∈ l.order) : l.rcs.length ∉ o.map Prod.snd := by
+  intro hm
+  simp only [List.mem_map] at hm
+  obtain ⟨e, he, heq⟩ := hm
+  have := hi.ids_lt e (hsub e he)
+  omega
+
+theorem popLast_cons {α : Type} {x : α} {t o' : List α} {e : α} (hp : popLast (x :: t) = some (o', e))
+    (hne : t ≠ []) : ∃ t', o' = x :: t' ∧ t = t' ++ [e] := by
+  cases t with
+  | nil => exact absurd rfl hne
+  | cons y t2 =>
+    simp only [popLast] at hp
+    split at hp
+    · rename_i l0 z heq
+      simp at hp
+      obtain ⟨rfl, rfl⟩ := hp
+      exact ⟨l0, rfl, popLast_eq heq⟩
+    · simp at hp
+
+/-- The result of `LRUCache.Add`. -/
+structure LRU.AddSpec (l : LRU) (k v : Nat) (l' : LRU) (i : Nat) (added : Bool) (fired : Option Nat) : Prop where
+  eff : l.Eff l' fired
+  existing : added = false → fired = none ∧ l'.rcs.length = l.rcs.length ∧ find k l.order = some i ∧
+    ∃ r r' : RC, l.rcs[i]? = some r ∧ l'.rcs[i]? = some r' ∧ r.key = k ∧ r.alive ∧ r'.alive ∧
+      r'.val = r.val ∧ r'.key = r.key ∧ find k l'.order = some i
+  fresh : added = true → find k l.order = none ∧ i = l.rcs.length ∧ l'.rcs.length = l.rcs.length + 1 ∧
+    ∃ r' : RC, l'.rcs[i]? = some r' ∧ r'.key = k ∧ r'.val = v ∧ r'.alive
+
+theorem LRU.add_spec {l l' : LRU} {h h' : Nat → Nat} {k v i : Nat} {added : Bool} {fired : Option Nat}
+    (hi : l.Inv h) (ha : l.add k v = (l', i, added, fired))
+    (hh1 : h' i = h i + 1) (hh2 : ∀ j, j ≠ i → h' j = h j) :
+    l'.Inv h' ∧ l.AddSpec k v l' i added fired := by
+  unfold LRU.add at ha
+  split at ha
+  · rename_i l0 i0 hg
+    simp only [Prod.mk.injEq] at ha
+    obtain ⟨rfl, rfl, rfl, rfl⟩ := ha
+    obtain ⟨h1, h2, h3, r, r', h4⟩ := LRU.get_spec hi hg hh1 hh2
+    exact ⟨h1, h2, fun _ => ⟨rfl, h3, h4.2.2.2.2.2.2.2.1, r, r', h4.1, h4.2.1, h4.2.2.1, h4.2.2.2.1, h4.2.2.2.2.1,
+      h4.2.2.2.2.2.1, h4.2.2.2.2.2.2.1, h4.2.2.2.2.2.2.2.2⟩, fun hc => by simp at hc⟩
+  · rename_i hg
+    have hfind : find k l.order = none := by
+      unfold LRU.get at hg
+      split at hg
+      · simp at hg
+      · assumption
+    have hb := hi.bound l.rcs.length (Nat.le_refl _)
+    have hnew : RC.alive { key := k, val := v, refs := 2, fin := false } := by unfold RC.alive; simp
+    simp only at ha
+    split at ha
+    · rename_i hcap
+      split at ha
+      · rename_i o' e hp
+        simp only [Prod.mk.injEq] at ha
+        obtain ⟨rfl, rfl, rfl, rfl⟩ := ha
+        have hne : l.order ≠ [] := by
+          intro hc
+          simp [hc] at hcap
+        obtain ⟨t', rfl, ht⟩ := popLast_cons hp hne
+        have hsub : ∀ x ∈ (k, l.rcs.length) :: t', x ∈ (k, l.rcs.length) :: l.order := by
+          intro x hx
+          simp only [List.mem_cons] at hx ⊢
+          rcases hx with rfl | hx
+          · exact Or.inl rfl
+          · exact Or.inr (by rw [ht]; exact List.mem_append_left _ hx)
+        have hsub' : ∀ x ∈ t', x ∈ l.order := fun x hx => by rw [ht]; exact List.mem_append_left _ hx
+        have hnd0 := hi.nodup
+        rw [ht, List.map_append, List.nodup_append] at hnd0
+        have hnd : (((k, l.rcs.length) :: t').map Prod.snd).Nodup := by
+          simp only [List.map_cons, List.nodup_cons]
+          exact ⟨hi.fresh_not_mem hsub', hnd0.1⟩
+        have he_lt : e.2 < l.rcs.length := hi.ids_lt e (by rw [ht]; simp)
+        have hi2 := hi.push (k := k) (v := v) (h' := h') (o' := (k, l.rcs.length) :: t')
+          (by rw [hh1, hb]) hh2 hsub hnd
+        have hout : ∀ x ∈ (k, l.rcs.length) :: t', x.2 ≠ e.2 := by
+          intro x hx
+          simp only [List.mem_cons] at hx
+          rcases hx with rfl | hx
+          · simp; omega
+          · exact hnd0.2.2 x.2 (List.mem_map.mpr ⟨x, hx, rfl⟩) e.2 (by simp)
+        obtain ⟨f1, f2, f3, f4, f5⟩ := LRU.finalize_spec (i := e.2) hi2 hout
+        refine ⟨f1, ⟨LRU.Eff.trans LRU.Eff.push f2 ?_, fun hc => by simp at hc, fun _ => ⟨hfind, rfl, ?_, ?_⟩⟩⟩
+        · intro j r2 r3 hj h2 h3 ha
+          have hjlt := lt_of_get_some h2
+          simp only [List.length_append, List.length_singleton] at hjlt
+          have hje : j = l.rcs.length := by omega
+          subst hje
+          rw [f5 _ (by omega), h2] at h3
+          simp at h3; subst h3; exact ha
+        · rw [f3]; simp
+        · refine ⟨_, ?_, rfl, rfl, hnew⟩
+          rw [f5 _ (by omega)]; exact append_get_new
+      · simp only [Prod.mk.injEq] at ha
+        obtain ⟨rfl, rfl, rfl, rfl⟩ := ha
+        refine ⟨hi.push (by rw [hh1, hb]) hh2 (fun _ h => h) ?_, ⟨LRU.Eff.push, fun hc => by simp at hc,
+          fun _ => ⟨hfind, rfl, by simp, _, append_get_new, rfl, rfl, hnew⟩⟩⟩
+        simp only [List.map_cons, List.nodup_cons]
+        exact ⟨hi.fresh_not_mem (fun _ h => h), hi.nodup⟩
+    · simp only [Prod.mk.injEq] at ha
+      obtain ⟨rfl, rfl, rfl, rfl⟩ := ha
+      refine ⟨hi.push (by rw [hh1, hb]) hh2 (fun _ h => h) ?_, ⟨LRU.Eff.push, fun hc => by simp at hc,
+        fun _ => ⟨hfind, rfl, by simp, _, append_get_new, rfl, rfl, hnew⟩⟩⟩
+      simp only [List.map_cons, List.nodup_cons]
+      exact ⟨hi.fresh_not_mem (fun _ h => h), hi.nodup⟩
 
 end SV.ChunkCache
